@@ -41,7 +41,12 @@ FRESH_BUILDERS = {
     'itertools.zip_longest', 'itertools.repeat', 'itertools.count',
     'itertools.starmap', 'itertools.accumulate', 'itertools.tee',
     'itertools.groupby', 'itertools.product', 'itertools.chain.from_iterable',
-    'builtins.range', 'functools.partial',
+    'builtins.range', 'functools.partial', 'builtins.dict.fromkeys',
+    'collections.OrderedDict.fromkeys', 'collections.namedtuple',
+    'builtins.slice', 'builtins.memoryview', 'builtins.bytes',
+    'itertools.permutations', 'itertools.combinations',
+    'itertools.pairwise', 'itertools.filterfalse', 'itertools.compress',
+    'heapq.nlargest', 'heapq.nsmallest', 'heapq.merge',
 }
 CONST_BUILDERS = {
     'builtins.len', 'builtins.str', 'builtins.int', 'builtins.float',
